@@ -262,8 +262,11 @@ def measure_transport(scratch):
     return sorted(dropped), anomalies
 
 
-def run_impl(mode, case, scratch, slots=1, tag="x", timeout=40.0):
-    """Execute one case on the real code. mode in {'sync','mem','sqlite'}."""
+def run_impl(mode, case, scratch, slots=1, tag="x", timeout=40.0, inject=None):
+    """Execute one case on the real code. mode in {'sync','mem','sqlite'}.
+    inject='delay-increment': a schedule, not a behaviour change - every call of
+    orchestrator.increment_invocation_retries is held until the next execution of that invocation has started
+    (at most 1 s), i.e. the thread that published RETRY is descheduled just before it bumps the counter."""
     from harness import tasks_c19 as T
     sync = mode == "sync"
     app = world.make_app("mem" if sync else mode, scratch, app_id=f"c19_{mode}_{slots}_{tag}",
@@ -279,6 +282,16 @@ def run_impl(mode, case, scratch, slots=1, tag="x", timeout=40.0):
     reg = T.Registry()
     T.REG = reg
     T.bind(app, reg, needed(case))
+    if inject == "delay-increment" and not sync:
+        orig_incr = app.orchestrator.increment_invocation_retries
+
+        def delayed_incr(inv_id):
+            before = reg.counter.get(str(inv_id), 0)
+            t_end = time.time() + 1.0
+            while time.time() < t_end and reg.counter.get(str(inv_id), 0) <= before:
+                time.sleep(0.002)
+            return orig_incr(inv_id)
+        app.orchestrator.increment_invocation_retries = delayed_incr
     runner = None if sync else app.runner
     rth = None
     if runner is not None:
@@ -316,11 +329,11 @@ def run_impl(mode, case, scratch, slots=1, tag="x", timeout=40.0):
     obs: dict = {"mode": mode, "slots": slots, "out": box.get("out", ["hang"]), "top_retries": None, "retries": {}}
     if "trace" in box:
         obs["trace"] = box["trace"]
+    ids: list = []
     try:
         if not sync:
             # every invocation of every task of the case must reach a final status (never-read ones included)
             deadline = time.time() + (timeout if "out" in box else 2.0)
-            ids: list = []
             while True:
                 ids = [i for t in reg.task_of.values() for i in app.orchestrator.get_task_invocation_ids(t.task_id)]
                 pending = [i for i in ids if not app.orchestrator.get_invocation_status(i).is_final()]
@@ -328,8 +341,6 @@ def run_impl(mode, case, scratch, slots=1, tag="x", timeout=40.0):
                     break
                 time.sleep(0.003)
             obs["unfinished"] = len(pending)
-            for i in ids:
-                obs["retries"][str(i)] = app.orchestrator.get_invocation_retries(i)
             obs["max_slots"] = runner.max_parallel_slots
         else:
             for inv in list(reg.launched) + ([box["inv"]] if "inv" in box else []):
@@ -340,6 +351,14 @@ def run_impl(mode, case, scratch, slots=1, tag="x", timeout=40.0):
         if runner is not None:
             runner.stop_runner_loop()
             rth.join(5)
+            # worker threads joined by the runner's stop: every increment_invocation_retries has landed now
+            try:
+                for i in ids:
+                    obs["retries"][str(i)] = app.orchestrator.get_invocation_retries(i)
+            except Exception:  # noqa: BLE001
+                pass
+            if "inv" in box and "out" in box:
+                obs["top_retries"] = obs["retries"].get(str(box["inv"].invocation_id), obs["top_retries"])
         try:
             app.state_backend.wait_for_all_async_operations()
         except Exception:  # noqa: BLE001
@@ -517,6 +536,24 @@ def dist_verdicts(case, m, s_obs, d_obs):
     if got != want:
         found.append((f"model-mismatch:{mode}", f"{mode} run differs from run_dist: impl {got}, model {want}",
                       {"impl": got, "model": want}))
+    # signature of the retry race (set_invocation_retry publishes RETRY before it increments the counter; the
+    # runner's blocking path can re-run the invocation in between): some body read a lagging num_retries while
+    # the counters are consistent once every worker thread is done.  Its consequences (an extra execution, a
+    # different outcome / count) are reported under that one key.
+    by_inv: dict = {}
+    for e in d_obs["log"]:
+        by_inv.setdefault(e["inv"], []).append(e)
+    lagging = [e for e in d_obs["log"] if e["retries_seen"] < e["attempt"] - 1]
+    eventually = all(d_obs["retries"].get(i) in (None, len(es) - 1) for i, es in by_inv.items())
+    consequences = ("outcome:", "count-mismatch:", "model-mismatch:", "num-retries:", f"retry-accounting:{mode}:too-many")
+    if lagging and eventually and any(k.startswith(consequences) for k, _, _ in found):
+        over = sorted({e["node"] for e in lagging})
+        rest = [f for f in found if not f[0].startswith(consequences)]
+        detail = "; ".join(w for k, w, _ in found if k.startswith(consequences))[:600]
+        found = rest + [("retry-race:stale-counter",
+                         f"{mode}: node(s) {over} were re-run before the retry counter was incremented (the body read "
+                         f"num_retries lagging behind its execution number), so the max-retries test let them run again: {detail}",
+                         {"lagging_reads": [[e["node"], e["attempt"], e["retries_seen"]] for e in lagging]})]
     # the guard of the theorem is decisive: a guarded program must show no lazy finding
     if m["req"] and any(k.startswith("lazy-sync") for k, _, _ in found):
         found.append(("guard-too-weak", "req_prog holds but sync mode skipped an invocation", {}))
@@ -587,6 +624,21 @@ def main(ctx: Ctx) -> int:
         if errs:
             from harness.common import CheckError
             raise CheckError(f"{len(errs)} executions failed in the harness, first: {errs[0][0]} {errs[0][1]['harness_error']}\n{errs[0][1]['trace']}")
+        # the retry race, under the schedule that exhibits it (see run_impl inject): parent waits for a child
+        # that keeps raising RetryError with max_retries=1
+        race_case = {"top": "call", "progs": [node(1, body=[["call", node(2, mr=1, dflt=[1, 0, 0])]])]}
+        race_model = evaluate_model(ctx, [("witness:retry-race", race_case)], dropped)[0]
+        race_sync = run_impl("sync", race_case, scratch, 1, tag="race_s")
+        race_seen = {}
+        for mode in ("mem", "sqlite"):
+            d = run_impl(mode, race_case, scratch, 1, tag="race_d", timeout=20.0, inject="delay-increment")
+            race_seen[mode] = dict(counts_of(d))
+            for key, what, extra in dist_verdicts(race_case, race_model, race_sync, d)[0]:
+                ctx.violation(key, f"[witness:retry-race, schedule delay-increment] {what}",
+                              dict(extra, case=race_case, name="witness:retry-race", mode=mode, slots=1, inject="delay-increment",
+                                   sync_counts=dict(counts_of(race_sync)), dist_counts=dict(counts_of(d))))
+        ctx.notes["retry_race_witness"] = {"schedule": "increment_invocation_retries held until the next execution starts (<= 1 s)",
+                                           "sync_executions": dict(counts_of(race_sync)), "distributed_executions": race_seen}
         stats = {"top": Counter(), "guarded": 0, "unguarded": 0, "outcome": Counter(), "executions": Counter(),
                  "with_retry": 0, "stale_counter_reads": Counter(), "wall_by_mode": Counter(), "runs_by_mode": Counter(),
                  "statement_kinds": Counter(), "transient": []}
@@ -723,9 +775,12 @@ def replay(ctx: Ctx, path: str) -> int:
             rc = 1
         mode = rp.get("mode", "mem")
         for md, sl in ([(mode, rp.get("slots", 1))] if mode != "sync" else [("mem", 1), ("sqlite", 1)]):
-            d_obs = run_impl(md, case, scratch, sl, tag="rd")
+            d_obs = run_impl(md, case, scratch, sl, tag="rd", inject=rp.get("inject"))
             print(f"{md:6}:", d_obs["out"], "executions", dict(counts_of(d_obs)), "num_retries", d_obs["top_retries"])
-            for key, what in judge(case, s_obs, d_obs) + [(f"retry-accounting:{md}:{k}", w) for k, w in accounting(case, d_obs)[0]]:
+            got = (canon_out(d_obs["out"]), sorted(e["node"] for e in d_obs["log"]),
+                   d_obs["top_retries"] if case["top"] == "call" and d_obs["top_retries"] is not None else 0)
+            fake = {"dist": got, "req": False}         # replay judges the implementation only
+            for key, what, _ in dist_verdicts(case, fake, s_obs, d_obs)[0]:
                 print("  ->", key, ":", what)
                 rc = 1
         return rc
